@@ -12,6 +12,14 @@ spec -> code : every header case of SFileFormatMC and every dtype/entry-point ca
 code -> spec : what the readers returned (plus seeded larger random dtypes / headers / names) is projected
                onto the vocabulary of BinRoundTrip.tla (field descriptors, row tokens, header key/value ids)
                and judged by BinRoundTripTrace.tla under TLC.
+world level  : BinRoundTripWorldMC.tla - sessions of calls in ONE process over twin files (byte-identical header text,
+               different row counts), a file with the same column names / row size and other types, a header-less file,
+               two 'r+' handle objects (1-d and 2-d chunks appended, then read through the writing handle), results kept
+               and scribbled over by the caller, one read-only view re-used after its base changed.  Invariants: every
+               call returns its fresh-world outcome, kept results stay as handed out.  The faithful mechanism satisfies
+               them exhaustively (<= MaxSteps calls); a header memo keyed on the header text and a handle counting
+               len(chunk) must violate them (self-tests).  -simulate exports sessions; each is executed in a forked
+               process of its own and replayed through BinRoundTripWorld.tla by BinRoundTripWorldTrace.tla.
 Python never judges: it maps abstract <-> concrete and records.
 """
 import atexit
@@ -1452,17 +1460,20 @@ def run(ctx):
                 "backslash, a} or a one-/two-level list/tuple of such, plus two-entry headers, x field name in {x, END, TREND, SIZE_1} "
                 "x row count %s (exported from SFileFormatMC.tla); (b) every one-field dtype of 15 element types x 5 sub-array shapes x "
                 "byte orders and every two-field dtype over 6 types x 4 shapes x orders, %s, memory layout of the written array in {contiguous, "
-                "every-second-row view, reversed view, column of a 2-d array, 0-d}, header ids 0..%d by a covering rule, plus %d "
+                "every-second-row view, reversed view, column of a 2-d array, 0-d, 2-d table}, header ids 0..%d by a covering rule, plus %d "
                 "simulated 3..%d-field dtypes, and tables just above 2^e bytes (e in %s) with row sizes %s written in one call and compared "
                 "block-wise by digest; header-writing cases carry by a covering rule a user key that looks like a reserved name (delim, "
                 "size, dtype, version, nrows, shape, has_fields x letter case x value kind) (BinRoundTripMC.tla); (c) %d seeded random tables (1..12 fields, rows up to 64) with random "
                 "literal headers.  Each case is written through one entry point on a path that held the previous case, read back through "
                 "every reading entry point (10 for header files, 5 for header-less ones) and judged by BinRoundTripTrace.tla.  A case is "
-                "distinct by (previous case, case) and always non-trivial (>= 1 row written and read)." %
+                "distinct by (previous case, case) and always non-trivial (>= 1 row written and read).  (d) %d simulated sessions of %d "
+                "calls, one process each, over twin files / two r+ handles / kept and scribbled results (BinRoundTripWorldMC.tla), "
+                "judged by BinRoundTripWorldTrace.tla; the world invariants are model-checked exhaustively for sessions of <= %d calls." %
                 (F["KeyLen"], F["ValLen"], sorted(F["NRows"]),
                  "writer x row count %s crossed" % sorted(B["RowCounts"]) if B["CrossIO"] else
                  "writer and row count in %s by a covering rule" % sorted(B["RowCounts"]),
-                 len(HEADERS) - 1, T["sim"], B["MaxFields"], sorted(B["BigExps"]), sorted(B["BigItems"]), T["random"]))
+                 len(HEADERS) - 1, T["sim"], B["MaxFields"], sorted(B["BigExps"]), sorted(B["BigItems"]), T["random"],
+                 T["world"]["sessions"], T["world"]["depth"], T["world"]["MaxSteps"]))
     ctx.exhaustive = True
     ctx.tlc_runs.sort(key=lambda r: r["what"])      # shards finish in any order
     ctx.note(bounds={"fmt": {k: sorted(v) if isinstance(v, set) else v for k, v in F.items()},
@@ -1480,6 +1491,10 @@ def run(ctx):
         "the low-level readers are given dtype = the written array's dtype and offset = file size - rows*itemsize "
         "(the data region is the tail of the file; checked separately as clause raw_rows)",
         "the dtype space is sampled beyond two fields (simulation + seeded random), not exhausted",
+        "world sessions: a file is read / replaced afresh only while no handle is open on it, one handle per path; the dict "
+        "returned by get_header() of a still-open handle is not scribbled over (it is the handle's own on HEAD); results of "
+        "module-level readers and of closed handles are the caller's",
+        "world sessions are sampled by tlc -simulate (the invariants are exhaustive only at the model level)",
     ]
 
 
